@@ -28,7 +28,7 @@ SHAPES = ['direct', 'map_above', 'rev_slice', 'batch2', 'chain', 'items_below', 
 # incl. exceptions from the OSError family (a missing file is THE everyday failure of a loading function) and
 # NotImplementedError (which the library itself uses for "items() not defined")
 RAISED = ['FilterException', 'VErrA', 'VErrB', 'VErrC', 'ValueError', 'IndexError', 'VBase', 'FileNotFoundError',
-          'NotImplementedError', 'VCustomInit', 'StopIteration']  # StopIteration: only under a catch set that covers it (PEP 479
+          'NotImplementedError', 'VCustomInit', 'VChained', 'StopIteration']  # StopIteration: only under a catch set that covers it (PEP 479
 #                                                    turns an UNCAUGHT one inside a generator into RuntimeError)
 SPECS = [None, 'VErrA', ['VErrA', 'VErrC'], 'Exception', 'ValueError', 'LookupError', ['KeyError', 'VErrC'], [],
          ['VBase', 'VErrA'], 'OSError', 'StopIteration']
